@@ -87,7 +87,7 @@ def main():
         'samesign': [[1, 4, 0.5], [-1, -8, -2], [3, 3]],
     }
     domain = {'step': 'any', 'hold': 'any', 'lin': 'any', 'linear': 'any', 'sin': 'any', 'sine': 'any', 'wel': 'any',
-              'welch': 'any', 'cub': 'any', 'cubed': 'any', 'squared': 'nonneg', 'sqr': 'nonneg',
+              'welch': 'any', 'cub': 'any', 'cubed': 'any', 'squared': 'any', 'sqr': 'any',
               'exp': 'samesign', 'exponential': 'samesign', -4: 'any', 3: 'any', 0.00005: 'any', 0: 'any'}
     shapes = spec.get('shapes') or list(domain)
     for shp in shapes:
